@@ -49,6 +49,7 @@ type listPkg struct {
 }
 
 type report struct {
+	GoStatements     []string       `json:"go_statements_rewritten,omitempty"`
 	MapRangeSites    []string       `json:"map_range_sites"`
 	SelectorRewrites map[string]int `json:"selector_rewrites"`
 	SyncSwaps        []string       `json:"sync_import_swaps"`
@@ -281,6 +282,7 @@ func rewritePackage(fset *token.FileSet, imp types.Importer, p listPkg, src, rep
 		fc.rewriteMapRanges()
 		if !nosync {
 			fc.swapSync()
+			fc.rewriteGoStmts()
 		}
 		if !fc.changed {
 			continue
@@ -465,6 +467,55 @@ func (fc *fileCtx) rewriteMapRanges() {
 		rs.Value = ast.NewIdent(kv)
 		rs.Tok = token.DEFINE
 		rs.Body.List = append(pre, rs.Body.List...)
+		return true
+	})
+}
+
+// rewriteGoStmts turns `go f(a, b)` into a call of vsched.Go, so that goroutines started by the
+// code under test become threads of the controlled scheduler (and plain goroutines otherwise).
+// Function value and arguments are evaluated at the go statement, as the language specifies.
+func (fc *fileCtx) rewriteGoStmts() {
+	n := 0
+	conv := func(list []ast.Stmt) {
+		for i, st := range list {
+			gs, ok := st.(*ast.GoStmt)
+			if !ok {
+				continue
+			}
+			n++
+			fc.rep.GoStatements = append(fc.rep.GoStatements, fc.pos(gs))
+			fc.need["vsched"] = true
+			fc.changed = true
+			goSel := &ast.SelectorExpr{X: ast.NewIdent("zzvsched"), Sel: ast.NewIdent("Go")}
+			call := gs.Call
+			if fl, isLit := call.Fun.(*ast.FuncLit); isLit && len(call.Args) == 0 {
+				list[i] = &ast.ExprStmt{X: &ast.CallExpr{Fun: goSel, Args: []ast.Expr{fl}}}
+				continue
+			}
+			var pre []ast.Stmt
+			fname := fmt.Sprintf("zzgf%d", n)
+			pre = append(pre, &ast.AssignStmt{Lhs: []ast.Expr{ast.NewIdent(fname)}, Tok: token.DEFINE, Rhs: []ast.Expr{call.Fun}})
+			var args []ast.Expr
+			for k, a := range call.Args {
+				an := fmt.Sprintf("zzga%d_%d", n, k)
+				pre = append(pre, &ast.AssignStmt{Lhs: []ast.Expr{ast.NewIdent(an)}, Tok: token.DEFINE, Rhs: []ast.Expr{a}})
+				args = append(args, ast.NewIdent(an))
+			}
+			inner := &ast.CallExpr{Fun: ast.NewIdent(fname), Args: args, Ellipsis: call.Ellipsis}
+			lit := &ast.FuncLit{Type: &ast.FuncType{Params: &ast.FieldList{}}, Body: &ast.BlockStmt{List: []ast.Stmt{&ast.ExprStmt{X: inner}}}}
+			pre = append(pre, &ast.ExprStmt{X: &ast.CallExpr{Fun: goSel, Args: []ast.Expr{lit}}})
+			list[i] = &ast.BlockStmt{List: pre}
+		}
+	}
+	ast.Inspect(fc.file, func(node ast.Node) bool {
+		switch x := node.(type) {
+		case *ast.BlockStmt:
+			conv(x.List)
+		case *ast.CaseClause:
+			conv(x.Body)
+		case *ast.CommClause:
+			conv(x.Body)
+		}
 		return true
 	})
 }
